@@ -249,7 +249,15 @@ def explore(
         if ck["mode"] == "callback":
             durable = c.payloads[-1][2] if c.payloads else None
             if payload_digest(durable) != exp_sem:
-                raise HarnessError("callback payload prefix differs from the reference")
+                # Either the simulation is not deterministic (harness error), or the dying process handed the callback MORE
+                # than the reference had delivered by this call -- a checkpoint written while the exception propagates.  The
+                # latter is the system's behaviour: that last payload is what the caller holds, so it is what gets resumed.
+                same_prefix = ([payload_digest(b) for _, _, b in c.payloads[:n_ck_before]]
+                               == [payload_digest(b) for _, _, b in ref.payloads[:n_ck_before]])
+                if len(c.payloads) > n_ck_before and same_prefix:
+                    probe("checkpoint_delivered_while_dying")
+                else:
+                    raise HarnessError("callback payload prefix differs from the reference")
         else:
             durable = read_file_checkpoint(run_file)
             if n_ck_before == 0 and pre_final is not None and durable == pre_final:
